@@ -101,11 +101,25 @@ def verify(i):
     tmp = scratch(True, i)
     try:
         m["demo_with_patch"] = run_demo(i, tmp)
-        p = subprocess.run(["/venv/bin/python", "-m", "pytest", "-q", "-p", "no:cacheprovider", "--timeout=900", "tests"], cwd=tmp,
+        jx = os.path.join(tmp, "junit.xml")
+        p = subprocess.run(["/venv/bin/python", "-m", "pytest", "-q", "-p", "no:cacheprovider", "--timeout=900", "--continue-on-collection-errors", f"--junitxml={jx}", "tests"], cwd=tmp,
                            env=dict({k: v for k, v in os.environ.items() if k != "FLEXSTACK_VERIF"}, PYTHONPATH=os.path.join(tmp, "src")),
-                           capture_output=True, text=True, timeout=3600)
+                           capture_output=True, text=True, timeout=5400)
         m["suite_with_patch"] = p.stdout.strip().splitlines()[-1] if p.stdout.strip() else f"exit {p.returncode}"
         m["suite_exit"] = p.returncode
+        # the verdict that counts: every test of the pinned baseline's stable_pass list still passes
+        try:
+            import xml.etree.ElementTree as ET
+            stable = set(json.load(open("/root/.vp/BASELINE.json"))["stable_pass"])
+            passed = set()
+            for tc in ET.parse(jx).getroot().iter("testcase"):
+                if not any(ch.tag in ("failure", "error", "skipped") for ch in tc):
+                    passed.add(f"{tc.get('classname')}::{tc.get('name')}")
+            m["suite_baseline_tests_failing"] = sorted(stable - passed)[:10]
+            m["suite_baseline_ok"] = not (stable - passed)
+        except Exception as e:  # noqa
+            m["suite_baseline_ok"] = None
+            m["suite_baseline_error"] = repr(e)
     finally:
         shutil.rmtree(tmp, ignore_errors=True)
     tmp = scratch(False, i)
